@@ -40,6 +40,18 @@ CHECKS = {
             dict(harness="C01_Sources"),
         ],
     },
+    "C11": {
+        "quick": [
+            dict(harness="C11_D1", cover=["value", "fault", "lazy", "badlit-skipped"], bounds="every operator variant (4 unary, 16 binary, && || ?:, 11 assignments x 3 lvalue forms, ++/-- prefix/postfix) over operands {a b x symbolic int64; u unset; e empty; o=010; h=0x1F; g=1z; literals 0 1 7 010 0x1F MaxInt64 08 0x}"),
+            dict(harness="C11_D2", cover=["value", "fault", "lazy"], bounds="all ordered pairs of the 38 operator variants x inner-operand position x redundant parentheses; inner operands a b (symbolic int64), outer operands 3 5"),
+            dict(harness="C11_Expand", bounds="the 38 depth-1 shapes through ParseCommands + Expand($((...)))"),
+        ],
+        "thorough": [
+            dict(harness="C11_D1", cover=["value", "fault", "lazy", "badlit-skipped"]),
+            dict(harness="C11_D2", cover=["value", "fault", "lazy"]),
+            dict(harness="C11_Expand"),
+        ],
+    },
     "C19": {
         "quick": [
             dict(harness="C19_Option", bounds="all 2^64 Option values"),
@@ -76,6 +88,8 @@ META = {
     "C01": dict(text="Totality of ParseCommands within bounds: every feasible path of the real lexer/parser SSA over N free runes (N<=3 quick, 4 thorough), "
                      "over every template with symbolic holes, with symbolic alias tables, under panicnil 0 and 1, ends without caller panic, background-goroutine death, deadlock or budget overrun. " + BOUNDED,
                 note="inputs longer than the bounds, code points outside D and the std decoders behind string/[]byte/io.Reader sources (smoke-tested concretely) are outside the claim; goroutines run under the deterministic baton schedule plus a drain phase after return"),
+    "C11": dict(text="Eval agrees with a C reference evaluator (precedence, associativity, laziness, effects on a map store, faults) for every 64-bit value of the symbolic operands on all shapes within the bounds; value obligations are discharged as identical terms or by z3. " + BOUNDED,
+                note="reference evaluator applies Go's own * / % << >> (the ALU is the spec); C-undefined cases (MinInt64/-1, shift count >= 64, unsequenced modify+access) are excluded by assumption; strconv.Itoa/ParseInt of a symbolic integer are modelled as an exact decimal round trip; known finding KF-C11-eager-operands"),
     "C19": dict(text="No panic / non-termination of Pos, End, Fprint (symbolic Config), Expand (symbolic ExpMode and Option), Eval, Match, Glob and Option.String on every feasible path within the bounds; errors are of the documented kinds. " + BOUNDED,
                 note="ASTs come from the parser on bounded inputs (hand-built ASTs are outside); Glob runs against the engine's empty file-system stub; regexp.Compile/regexp matching run natively on concretised patterns/subjects; user.Lookup is a stub that always fails"),
 }
